@@ -128,6 +128,27 @@ class State:
         return s
 
 
+_CRC_T = []
+for _i in range(256):
+    _c = _i
+    for _ in range(8):
+        _c = (_c >> 1) ^ 0xEDB88320 if _c & 1 else _c >> 1
+    _CRC_T.append(_c)
+
+
+def crc32_forge(prefix, target):
+    """4 bytes X such that zlib.crc32(prefix + X) == target"""
+    s = 0xFFFFFFFF
+    for b in prefix:
+        s = _CRC_T[(s ^ b) & 0xFF] ^ (s >> 8)
+    r = target ^ 0xFFFFFFFF
+    for _ in range(4):
+        idx = next(i for i in range(256) if _CRC_T[i] >> 24 == r >> 24)
+        r = (((r ^ _CRC_T[idx]) << 8) & 0xFFFFFFFF) | idx
+    x = r ^ s
+    return bytes([(x >> (8 * i)) & 0xFF for i in range(4)])
+
+
 class PathEnd(Exception):
     pass
 
@@ -210,6 +231,7 @@ class Executor:
         self.small_model_bounds = (64, 8192)
         self.path_limit = self.cfg.get("path_limit", 20000)
         self.unwind_assume = set(self.cfg.get("unwind_assume", []))
+        self._extra = []   # states that continue after a runtime panic was caught by a vPanics frame
         self._region = None
         self.merge_enabled = self.cfg.get("merge", True)
         from . import stubs as _st
@@ -286,10 +308,17 @@ class Executor:
         ints = [e["sym"] for e in st.tape if e["kind"] in ("int",) and is_sym(e["sym"])]
         lens = [e["n"] for e in st.tape if e["kind"] == "bytes" and is_sym(e["n"])]
         self.sync_solver(st)
-        for bound in self.small_model_bounds + (None,):
+        attempts = []
+        if st.ghost.get("crc_fix"):
+            attempts.append((4, self.small_model_bounds[0]))   # room for a CRC-forcing 4-byte suffix in the replay
+        attempts += [(None, b) for b in self.small_model_bounds] + [(None, None)]
+        for lo, bound in attempts:
             self.solver.push()
             if extra is not None and extra is not True:
                 self.solver.add(extra)
+            if lo is not None:
+                for v in lens:
+                    self.solver.add(self.A.cmp(">=", v, lo))
             if bound is not None:
                 for v in ints + lens:
                     if self.bv:
@@ -342,7 +371,19 @@ class Executor:
                             break
                     if len(data) < n:
                         data += [0xA5] * (n - len(data))
-                out.append({"name": e["name"], "kind": "bytes", "n": str(n), "hex": bytes(data).hex()})
+                out.append({"name": e["name"], "kind": "bytes", "n": str(n), "hex": bytes(data).hex(), "_base": e["base"].name})
+        # CRC32 is an uninterpreted function on the symbolic side: make the concrete message hash to the model's value
+        for v, base_name in st.ghost.get("crc_fix", ()):
+            if base_name is None:
+                continue
+            target = m.eval(v, model_completion=True).as_long() & 0xFFFFFFFF
+            for o in out:
+                if o.get("_base") == base_name and int(o["n"]) >= 4 and len(o["hex"]) == 2 * int(o["n"]):
+                    data = bytearray(bytes.fromhex(o["hex"]))
+                    data[-4:] = crc32_forge(bytes(data[:-4]), target)
+                    o["hex"] = bytes(data).hex()
+        for o in out:
+            o.pop("_base", None)
         return out
 
     # ------------------------------------------------------------------ memory
@@ -590,7 +631,7 @@ class Executor:
     def init_allowed(self, pk):
         if pk in ("io",):
             return True
-        if pk.startswith("github.com/panjf2000/gnet/v2") and not pk.endswith("/pkg/logging"):
+        if pk.startswith("github.com/panjf2000/gnet/v2") and not pk.endswith(("/pkg/logging", "/pkg/pool/goroutine", "/pkg/pool/bytebuffer")):
             return True
         return pk in self.cfg.get("extra_init_pkgs", [])
 
@@ -748,6 +789,9 @@ class Executor:
             except Unsupported as u:
                 self.inconclusive.append("unsupported: %s at %s %s" % (u, fr.fn["name"], ins.get("pos", "")))
                 raise PathEnd()
+            if self._extra:
+                extras, self._extra = self._extra, []
+                r = ([st] if r is None else list(r)) + extras
             if r is not None:
                 return r
 
@@ -994,7 +1038,7 @@ class Executor:
             self.stats.stubs.add(fname)
             return self.finish_stub(st, fr, h(self, st, args, ins), retname)
         fn = self.p.funcs.get(fname)
-        if fname.endswith(".init") and not self.init_allowed(fname[:-5]):
+        if fname.endswith(".init") and not fname.startswith("(") and not self.init_allowed(fname[:-5]):
             return None
         if fn is None:
             raise Unsupported("call to external function without stub: " + fname)
@@ -1046,6 +1090,7 @@ class Executor:
                             s2.pc.append(z)
                             try:
                                 self.handle_panic(s2, GoPanic("integer divide by zero"), ins)
+                                self._extra.append(s2)
                             except PathEnd:
                                 pass
                         st.pc.append(z3.Not(z))
@@ -1270,6 +1315,9 @@ class Executor:
             else:
                 try:
                     self.handle_panic(s2, GoPanic(what), ins)
+                    s2.nbranch += 1
+                    s2.nforks += 1
+                    self._extra.append(s2)   # caught by vPanics: the state lives on
                 except PathEnd:
                     pass
         st.pc.append(ok)
